@@ -1,6 +1,6 @@
 (** C12 — Challenges bind every first-message element and match for prover and verifier. *)
 From ZK Require Import Model.Field Model.Zq Model.QBls Model.Pedersen Model.PS Model.Schnorr Model.Range
-  Model.Abacus Proofs.SchnorrProofs Proofs.EstablishProofs Proofs.ChallengeProofs.
+  Model.Abacus Model.Pinned Proofs.SchnorrProofs Proofs.EstablishProofs Proofs.ChallengeProofs Proofs.PinnedProofs.
 Local Open Scope fld_scope.
 
 (** builder and finished proof feed the same chunks *)
@@ -73,6 +73,18 @@ Theorem C12_same_challenge_is_collision : forall (K : Fld) (chal : list (atom K)
   t <> t' -> chal t = chal t' -> exists a b, a <> b /\ chal a = chal b.
 Proof. exact same_challenge_is_collision. Qed.
 
+(** REFUTATIONS of the pinned transcripts (D1): proofs differing in a revealed commitment scalar hashed to the same string *)
+Theorem C12_pinned_establish_binds_refuted : forall (K : Fld) (close_tag : K) (pk : pkey K) cid cb mb (p : eproof K) ctx k',
+  establish_transcript_pinned close_tag pk cid cb mb p ctx
+  = establish_transcript_pinned close_tag pk cid cb mb (mkEP k' (e_kclose p) (e_kcb p) (e_kmb p) (e_sp p) (e_csp p)) ctx.
+Proof. exact pinned_establish_binds_refuted. Qed.
+
+Theorem C12_pinned_pay_binds_refuted : forall (K : Fld) (close_tag : K) (pk : pkey K) rp nonce (p : pproof K) ctx k',
+  pay_transcript_pinned close_tag pk rp nonce p ctx
+  = pay_transcript_pinned close_tag pk rp nonce
+      (mkPP k' (p_kclose p) (p_tok p) (p_rev p) (p_sp p) (p_csp p) (p_crange p) (p_mrange p)) ctx.
+Proof. exact pinned_pay_binds_refuted. Qed.
+
 Example C12_nonvacuous :
   let kp := keygen (fq 11) (fq 17) [fq 19; fq 23; fq 29; fq 31; fq 37] (fq 13) in
   let p := establish_prove_with (fq 77) (snd kp) (fq 5) (fq 6) (fq 7) (fq 10) (fq 1000) (fq 41) (fq 43)
@@ -92,4 +104,6 @@ Print Assumptions C12_range_constraint_chunks_injective.
 Print Assumptions C12_establish_transcript_binds.
 Print Assumptions C12_pay_transcript_binds.
 Print Assumptions C12_same_challenge_is_collision.
+Print Assumptions C12_pinned_establish_binds_refuted.
+Print Assumptions C12_pinned_pay_binds_refuted.
 Print Assumptions C12_nonvacuous.
